@@ -22,6 +22,7 @@ class Stream:
         self.samples = []
         self.group = None
         self.text = False
+        self.inner = False
 
     def measure(self):
         a = alive(self.refs if self.group is None else self.group.allrefs())
@@ -33,11 +34,61 @@ class Stream:
     async def gen(self):
         for i in range(self.L):
             self.measure()
-            o = WStr("x") if self.text else Obj(self.base + i * self.step)
+            o = WStr("x") if self.text else (Inner(i) if self.inner else Obj(self.base + i * self.step))
             self.refs.append(weakref.ref(o))
             yield o
             del o
         self.measure()
+
+
+class Inner:
+    """A tiny async iterator (weakly referenceable) used as an item of an outer stream."""
+
+    def __init__(self, n):
+        self.n = n
+        self.done = False
+
+    def __aiter__(self):
+        return self
+
+    async def __anext__(self):
+        if self.done:
+            raise StopAsyncIteration
+        self.done = True
+        return self.n
+
+
+class ReadyAw:
+    """A weakly referenceable awaitable."""
+
+    def __init__(self, n):
+        self.n = n
+
+    def __await__(self):
+        return self.n
+        yield
+
+
+class SyncStream:
+    """Lazy *sync* generator of awaitables for await_each."""
+
+    def __init__(self, L):
+        self.refs = []
+        self.L = L
+        self.max_alive = 0
+        self.samples = []
+
+    def gen(self):
+        for i in range(self.L):
+            a = alive(self.refs)
+            self.samples.append(a)
+            self.max_alive = max(self.max_alive, a)
+            o = ReadyAw(i)
+            self.refs.append(weakref.ref(o))
+            yield o
+            del o
+        a = alive(self.refs)
+        self.max_alive = max(self.max_alive, a)
 
 
 class WStr(str):
@@ -96,6 +147,8 @@ def _mk():
     T["groupby"] = (lambda s, n: A.groupby(s[0].gen(), key=lambda o: o.n // 2), 1, "it", lambda n: 3)
     T["groupby_nokey"] = (lambda s, n: A.groupby(s[0].gen()), 1, "it", lambda n: 3)
     T["sum_str"] = (lambda s, n: A.sum(s[0].gen(), ""), 1, "aw", lambda n: 2)
+    T["chain_from_stream"] = (lambda s, n: A.chain.from_iterable(s[0].gen()), 1, "it", lambda n: 2)
+    T["await_each"] = (lambda s, n: A.await_each(s[0].gen()), 1, "it", lambda n: 2)
     T["any_iter"] = (lambda s, n: A.any_iter(s[0].gen()), 1, "it", lambda n: 2)
     T["borrow"] = (lambda s, n: A.borrow(s[0].gen()), 1, "it", lambda n: 2)
     T["all"] = (lambda s, n: A.all(s[0].gen()), 1, "aw", lambda n: 2)
@@ -135,6 +188,10 @@ def h_retain(L: int, n: int):
         Group(streams)
     if name == "sum_str":
         streams[0].text = True
+    if name == "chain_from_stream":
+        streams[0].inner = True
+    if name == "await_each":
+        streams = [SyncStream(L)]
     nn = 1
     for v in (1, 2, 3):
         if n == v:
@@ -152,7 +209,7 @@ def h_retain(L: int, n: int):
             while True:
                 got, end = D.take(obj, 1)
                 if got and name in ("groupby", "groupby_nokey"):
-                    D.take(got[0][1], 1)  # touch the group, then drop it
+                    D.take(got[0][1], 3)  # read the group to its end, then drop it
                 del got
                 steps += 1
                 if end is not None:
